@@ -274,7 +274,9 @@ def sizing(rep, prog, rule):
                     if isinstance(be, tuple) and be and be[0] in ("call", "callat") and \
                             (be[1] if be[0] == "call" else be[2]) == "crop_box":
                         same_box = True
-            if bp == "other" and same_box:
+            full_size = (a[1][0] == "call" and a[1][1] == "width" and a[2][0] == "call" and a[2][1] == "height"
+                         and a[1][2][0] == a[2][2][0])
+            if bp == "other" and same_box and not full_size:
                 rep.bad(rule, "premultiply|box-not-translated", s.at,
                         "the premultiplied scratch image is (%s, %s), not the size of the source view, but "
                         "crop_unchecked wraps it with the source's own crop box: the rows / columns that were "
